@@ -1,9 +1,113 @@
-(* C09 — retry and dead-queue routing. Statements only (proofs in Proofs/Batcher.v). *)
-From Verif Require Import Base.Sx Model.Batcher Proofs.Batcher.
+(* C09 — retry and dead-queue routing (the retriable frame of the batcher LTS, Model/Batcher.v).
+   Statements only; proofs in Proofs/Batcher.v.  Every theorem holds for every configuration and
+   every label sequence the LTS admits.
+   failed_hist s : (seq, numTries, backoff-said-Stop, events) of every onRetryError call, newest first
+   result_hist s : (seq, numTries, ok) of every return of outFn inside the retry loop, newest first
+   fseq f        : the sequence number of a failed_hist entry *)
+From Verif Require Import Base.Sx Model.Batcher Proofs.Batcher Gen.BatcherGen.
+From Coq Require Import List ZArith.
+Import ListNotations.
+Local Open Scope Z_scope.
 
-Theorem c09_reachable_invariant :
-  forall (c : cfg) (P : st -> Prop),
-    (forall s l s', P s -> step c s l = Some s' -> P s') ->
-    forall ls s s', P s -> run c s ls = Some s' -> P s'.
-Proof. exact run_invariant. Qed.
-Print Assumptions c09_reachable_invariant.
+(* ---- A. give-up (without backoff.Stop) only when 0 <= AttemptNum < numTries, and after the calls
+        numbered 0..numTries have all failed: at least AttemptNum + 2 failed calls ----------------- *)
+Theorem c09_retries_at_least :
+  forall c ls s, run c (init c) ls = Some s ->
+    forall q t evs, In (q, t, false, evs) (failed_hist s) ->
+      0 <= retry c /\ retry c < t /\
+      forall k, 0 <= k <= t -> In (q, k, false) (result_hist s).
+Proof. exact retries_at_least. Qed.
+Print Assumptions c09_retries_at_least.
+
+Theorem c09_retry_forever_when_negative :
+  forall c ls s, retry c < 0 -> run c (init c) ls = Some s ->
+    forall q t stopbo evs, In (q, t, stopbo, evs) (failed_hist s) -> stopbo = true.
+Proof. exact never_given_up_when_retry_negative. Qed.
+Print Assumptions c09_retry_forever_when_negative.
+
+(* ---- B. a batch with an iterable event enters its commit section only when its retry loop is over:
+        some call succeeded, or it was given up ---------------------------------------------------- *)
+Theorem c09_no_commit_while_retrying :
+  forall c ls s, retriable c = true -> run c (init c) ls = Some s ->
+    forall q evs, In q (commit_batches s) ->
+      nth_error (rev (sealed_hist s)) (Z.to_nat q) = Some evs -> has_iter evs = true ->
+      (exists t, In (q, t, true) (result_hist s)) \/ In q (map fseq (failed_hist s)).
+Proof. exact no_commit_while_retrying. Qed.
+Print Assumptions c09_no_commit_while_retrying.
+
+(* ---- C. a batch is given up at most once --------------------------------------------------------- *)
+Theorem c09_giveup_once :
+  forall c ls s, run c (init c) ls = Some s -> NoDup (map fseq (failed_hist s)).
+Proof. exact giveup_once. Qed.
+Print Assumptions c09_giveup_once.
+
+Theorem c09_giveup_once_entries :
+  forall c ls s, run c (init c) ls = Some s ->
+    forall f1 f2, In f1 (failed_hist s) -> In f2 (failed_hist s) -> fseq f1 = fseq f2 -> f1 = f2.
+Proof. exact giveup_once_entries. Qed.
+Print Assumptions c09_giveup_once_entries.
+
+(* ---- D. what this batcher commits -------------------------------------------------------------- *)
+(* emptied c s q  := deadq c && (q is the sequence number of some failed_hist entry)
+   eff_concat em i [b_i; b_i+1; ...] := concatenation of the b_k with em k = false
+   lo_seq s       := number of batches whose commit section is over (Properties/C08.v, c08_lo_seq_cases)
+   General form of c08_committed_shape: whole batches in sequence order, a given-up batch contributing
+   nothing when there is a dead queue, then a prefix of the batch inside its commit section. *)
+Theorem c09_committed_shape :
+  forall c ls s, run c (init c) ls = Some s ->
+    exists j,
+      rev (committed s) =
+        eff_concat (emptied c s) 0 (firstn (Z.to_nat (lo_seq s)) (rev (sealed_hist s))) ++
+        firstn j (if emptied c s (lo_seq s) then [] else nth (Z.to_nat (lo_seq s)) (rev (sealed_hist s)) []).
+Proof. exact committed_shape. Qed.
+Print Assumptions c09_committed_shape.
+
+(* dead queue: the commit section of a given-up batch announces 0 events and commits none *)
+Theorem c09_deadqueue_commit_section_announces_zero :
+  forall c ls s q n s', deadq c = true -> run c (init c) ls = Some s ->
+    step c s (LCommitBegin q n) = Some s' -> In q (map fseq (failed_hist s)) -> n = 0.
+Proof. exact deadqueue_commit_begin_zero. Qed.
+Print Assumptions c09_deadqueue_commit_section_announces_zero.
+
+Theorem c09_deadqueue_main_commits_none :
+  forall c ls s e s', deadq c = true -> run c (init c) ls = Some s ->
+    step c s (LCommitEv e) = Some s' ->
+    exists b, committing_bat (flight s) = Some b /\ ~ In (bseq b) (map fseq (failed_hist s)).
+Proof. exact deadqueue_no_commit_event. Qed.
+Print Assumptions c09_deadqueue_main_commits_none.
+
+(* no dead queue: given-up batches are committed like any other, every event once, in order *)
+Theorem c09_no_deadqueue_commits_all :
+  forall c ls s, (retriable c = false \/ deadq c = false) -> run c (init c) ls = Some s ->
+    exists j,
+      rev (committed s) =
+        concat (firstn (Z.to_nat (lo_seq s)) (rev (sealed_hist s))) ++
+        firstn j (nth (Z.to_nat (lo_seq s)) (rev (sealed_hist s)) []).
+Proof. exact committed_shape_plain. Qed.
+Print Assumptions c09_no_deadqueue_commits_all.
+
+(* ---- non-vacuity: AttemptNum = 1, three failed calls, then give-up into the dead queue ---------- *)
+Definition nv_cfg : cfg :=
+  {| workers := 1; maxCount := 1; maxBytes := 0; retriable := true; retry := 1; deadq := true;
+     atomic_push := batcher_atomic_push |}.
+Definition nv_e1 : ev := {| eid := 1; esrc := 0; esize := 5; ekind := 0 |}.
+Definition nv_two_failures : list label :=
+  [LFree; LAdd nv_e1; LSeal 0 1 1 5; LPush 0; LTake 0; LOutBegin 0 1;
+   LRetryCall 0 0; LOutSaw 0 [1]; LRetryResult 0 0 false;
+   LRetryCall 0 1; LOutSaw 0 [1]; LRetryResult 0 1 false].
+Definition nv_rest : list label :=
+  [LRetryCall 0 2; LOutSaw 0 [1]; LRetryResult 0 2 false; LRetryGiveUp 0 2 1 true false;
+   LOutEnd 0 0 3; LCommitBegin 0 0; LCommitEnd 0 3].
+
+Example c09_nonvacuous :
+  (* after two failed calls (numTries = 1 = AttemptNum) giving up is not enabled, nor is committing *)
+  run nv_cfg (init nv_cfg) (nv_two_failures ++ [LRetryGiveUp 0 1 1 true false]) = None /\
+  run nv_cfg (init nv_cfg) (nv_two_failures ++ [LCommitBegin 0 1]) = None /\
+  exists s, run nv_cfg (init nv_cfg) (nv_two_failures ++ nv_rest) = Some s /\
+            failed_hist s = [(0, 2, false, [nv_e1])] /\
+            rev (result_hist s) = [(0, 0, false); (0, 1, false); (0, 2, false)] /\
+            commit_batches s = [0] /\ committed s = [] /\ rev (added s) = [nv_e1] /\ flight s = [].
+Proof.
+  split; [vm_compute; reflexivity|]. split; [vm_compute; reflexivity|].
+  eexists. vm_compute. repeat split; reflexivity.
+Qed.
